@@ -282,6 +282,33 @@ def run_shard(ctx):
         if fd:
             ctx.viol(f"regeneration:same-dict-object-twice:{fd}", f"{cid}: converting the same dict object twice gives different {fd}: {o1.brief()} / {o2.brief()}",
                      common.witness(form, case=cid, history="same dict object twice"))
+    # -- pass 4a: the same in-memory stream handed over twice (a cache of uploaded files): the converter reads it, it neither consumes nor closes it
+    import gc as _gc
+    import io as _io
+    from .C12 import md_representable
+    for k, (cid, kind, form, kw) in enumerate(batch):
+        if kw or (ctx.tier == "quick" and k % 4):
+            continue
+        sheets = form.to_sheets()
+        for fmt in (["csv", "md"] if md_representable(sheets) else []) + ["xlsx", "xls"]:
+            try:
+                data = render.render(sheets, fmt)
+            except Exception:  # noqa: BLE001 - a cell the container cannot carry
+                continue
+            raw = data.encode("utf-8") if isinstance(data, str) else data
+            bio = _io.BytesIO(raw)
+            outs = []
+            for _ in range(3):
+                outs.append(drive.call_convert(bio, file_type="." + fmt, **form.args))
+                _gc.collect()
+            ctx.ctr("digest_comparisons", 2)
+            ctx.ctr("stream_reuse_cases")
+            ctx.case(sig=f"{cid}|stream-reuse|{fmt}|{hs}")
+            fd = first_diff(digests(outs[0]), digests(outs[1])) or first_diff(digests(outs[0]), digests(outs[2]))
+            if fd or bio.closed:
+                ctx.viol(f"regeneration:same-stream-object-again:{fmt}:{'closed' if bio.closed else fd}",
+                         f"{cid}: converting the same BytesIO ({fmt}) again gives {[o.brief()[:80] for o in outs]}; stream closed afterwards: {bio.closed}",
+                         common.witness(form, case=cid, history=f"same BytesIO x3 ({fmt})"))
     # -- pass 4b: regeneration after a refusal: a survey whose to_xml() raises must keep raising the same error on every later call
     for name, form in late_failing_forms():
         from pyxform.builder import create_survey_element_from_dict
